@@ -158,6 +158,12 @@ class SparselyBin(Factory, Container):
             out.bins[i] = Count.ed(v.entries)
         return out.specialize()
 
+    def _adopt(self, sub):
+        """Copy of another SparselyBin's bin; built on this container's template (if any) so that it stays fillable."""
+        if self.value is not None:
+            return self.value.zero() + sub
+        return sub.copy()
+
     @inheritdoc(Container)
     def zero(self):
         return SparselyBin(self.binWidth, self.quantity, self.value, self.nanflow.zero(), self.origin)
@@ -187,7 +193,7 @@ class SparselyBin(Factory, Container):
                 if i in out.bins:
                     out.bins[i] = out.bins[i] + v
                 else:
-                    out.bins[i] = v.copy()
+                    out.bins[i] = self._adopt(v)
             return out.specialize()
 
         raise ContainerException(f"cannot add {self.name} and {other.name}")
@@ -208,7 +214,7 @@ class SparselyBin(Factory, Container):
                 if i in self.bins:
                     self.bins[i] += v
                 else:
-                    self.bins[i] = v.copy()
+                    self.bins[i] = self._adopt(v)
             self.nanflow += other.nanflow
             return self
         raise ContainerException(f"cannot add {self.name} and {other.name}")
